@@ -5,6 +5,8 @@
 From Coq Require Import Lia ZifyBool.
 From BT Require Import Base.ListX AttDb.AttDbModel NQueue.NQueueModel
   AttSrv.AttSrvModel AttSrv.AttSrvSpecC01 AttSrv.AttSrvProofsC01.
+From BT Require AttSrv.AttSrvProofsC02.
+Module C2 := AttSrv.AttSrvProofsC02.
 Local Open Scope N_scope.
 
 Ltac okb :=
@@ -22,6 +24,13 @@ Lemma takeN_two m (b : list N) : 2 <= m -> m <= len b ->
 Proof.
   intros H1 H2. unfold takeN. destruct b as [|x [|y t]]; unfold len in H2; cbn [length] in H2; try lia.
   destruct (N.to_nat m) as [|[|k]] eqn:E; try lia. cbn [firstn nth]. eexists. reflexivity.
+Qed.
+
+Lemma put_at_one b x t b' : put b 1 (x :: t) = Some b' -> nth 1 b' 0 = x.
+Proof.
+  unfold put. destruct (1 + len (x :: t) <=? len b) eqn:E; [|discriminate]. intros H. inversion H.
+  apply N.leb_le in E. unfold len in E. cbn [length] in E. unfold takeN.
+  destruct b as [|x0 tt]; cbn [length] in E; [lia|]. reflexivity.
 Qed.
 
 Lemma len_takeN_le m (b : list N) : m <= len b -> len (takeN m b) = m.
@@ -55,26 +64,31 @@ Lemma fl_good_plain op os b' m : good op os (b', m) -> m <= len b' -> op = 10 \/
   frame_list_ok (takeN m b') = true.
 Proof.
   intros [_ [[G1 G2]|G]] Hl Hop; [|eapply fl_err; eauto]. cbn [fst snd] in *.
-  destruct (fl_head m b' _ G1 Hl G2) as [t [-> _]]. destruct Hop as [->|[->|->]]; reflexivity.
+  destruct (fl_head m b' _ G1 Hl G2) as [t [-> _]]. destruct Hop as [ -> | [ -> | -> ] ]; reflexivity.
 Qed.
 
 Ltac err_fl := match goal with X : error_response _ _ _ _ _ = Some _ |- _ => eapply error_fl; [|exact X]; lia end.
 
 Lemma check_range_failed_fl c pdu b n sa sb r : 5 <= n ->
   check_size_and_handle_range c pdu b n sa sb = Some (Failed r) -> frame_list_ok (takeN (snd r) (fst r)) = true.
-Proof. intros Hn. unfold check_size_and_handle_range. intros H. okb; destruct r; cbn [fst snd]; err_fl. Qed.
+Proof. intros Hn. unfold check_size_and_handle_range. intros H. okb; match goal with X : error_response _ _ _ _ _ = Some ?r0 |- _ => destruct r0 end; cbn [fst snd]; err_fl. Qed.
 
 Lemma check_handle_failed_fl c pdu b n r : 5 <= n ->
   check_handle c pdu b n = Some (Failed r) -> frame_list_ok (takeN (snd r) (fst r)) = true.
-Proof. intros Hn. unfold check_handle. intros H. okb; destruct r; cbn [fst snd]; err_fl. Qed.
+Proof. intros Hn. unfold check_handle. intros H. okb; match goal with X : error_response _ _ _ _ _ = Some ?r0 |- _ => destruct r0 end; cbn [fst snd]; err_fl. Qed.
 
 (* ------------------------------------------------------------------ fixed size responses *)
+Ltac fl_fixed Z :=
+  match goal with |- frame_list_ok (takeN ?m ?bb) = true =>
+    let t := fresh "t" in let L := fresh "L" in
+    destruct (fl_head m bb _ ltac:(lia) ltac:(lia) Z) as [t [-> L]]; cbn [frame_list_ok]; rewrite L end.
+
 Lemma exchange_mtu_fl c st cid pdu b n st' b' m : 23 <= n -> m <= len b' ->
   handle_exchange_mtu c st cid pdu b n = Some (st', (b', m)) -> frame_list_ok (takeN m b') = true.
 Proof.
   intros Hn Hl. unfold handle_exchange_mtu. intros H. okb; try err_fl.
   match goal with X : put _ 0 _ = Some _ |- _ => apply put_zero in X; rename X into Z end.
-  destruct (fl_head 3 b' 3) as [t [-> L]]; [lia|lia|exact Z|]. cbn [frame_list_ok]. rewrite L. reflexivity.
+  fl_fixed Z. reflexivity.
 Qed.
 
 Lemma write_request_fl c st cid pdu b n st' b' m : 23 <= n -> m <= len b' ->
@@ -83,7 +97,7 @@ Proof.
   intros Hn Hl. unfold handle_write_request. intros H. okb; try err_fl.
   - match goal with X : check_handle _ _ _ _ = Some (Failed _) |- _ => apply check_handle_failed_fl in X; [exact X|lia] end.
   - match goal with X : put _ 0 _ = Some _ |- _ => apply put_zero in X; rename X into Z end.
-    destruct (fl_head 1 b' 19) as [t [-> L]]; [lia|lia|exact Z|]. cbn [frame_list_ok]. rewrite L. reflexivity.
+    fl_fixed Z. reflexivity.
 Qed.
 
 Lemma prepare_write_fl c st cid pdu b n st' b' m : 23 <= n -> m <= len b' ->
@@ -94,14 +108,241 @@ Proof.
   - match goal with X : (len pdu <? 5) = false |- _ => apply N.ltb_ge in X end.
     match goal with X : put _ 1 _ = Some _, Y : put _ 0 _ = Some _ |- _ =>
       pose proof (put_nth_low _ _ _ _ 0%nat X ltac:(lia)) as Z; rewrite (put_zero _ _ _ _ Y) in Z end.
-    destruct (fl_head (N.min n (len pdu)) b' 23) as [t [-> L]]; [lia|lia|exact Z|]. cbn [frame_list_ok]. rewrite L.
-    apply N.leb_le. lia.
+    fl_fixed Z. apply N.leb_le. lia.
 Qed.
 
 Lemma execute_write_fl c st cid pdu b n st' b' m : 23 <= n -> m <= len b' ->
   handle_execute_write c st cid pdu b n = Some (st', (b', m)) -> frame_list_ok (takeN m b') = true.
 Proof.
   intros Hn Hl. unfold handle_execute_write. intros H. okb; try err_fl.
-  all: match goal with X : put _ 0 _ = Some _ |- _ => apply put_zero in X; rename X into Z end;
-    destruct (fl_head 1 b' 25) as [t [-> L]]; [lia|lia|exact Z|]; cbn [frame_list_ok]; rewrite L; reflexivity.
+  all: match goal with X : put _ 0 _ = Some _ |- _ => apply put_zero in X; rename X into Z end; fl_fixed Z; reflexivity.
+Qed.
+
+(* ------------------------------------------------------------------ Find By Type Value *)
+Lemma services_by_group_q c st cid : forall ss index si ei value b cur e found b' cur' found',
+  services_by_group c st cid ss index si ei value b cur e found = Some (b', cur', found') ->
+  exists q, cur' = cur + 4 * q /\ (found' = true -> found = true \/ 1 <= q).
+Proof.
+  induction ss as [|s t IH]; intros index si ei value b cur e found b' cur' found' H; cbn [services_by_group] in H.
+  - mon. exists 0. split; [lia|auto].
+  - cbv zeta in H. brk; [|eapply IH; eauto]. mon. brk; [eapply IH; eauto|].
+    destruct (access_compare_value c st cid a value); try (eapply IH; eauto; fail).
+    brk; [|eapply IH; eauto]. mon. apply IH in H. destruct H as [q [H1 H2]].
+    exists (q + 1). split; [lia|]. intros _. right. lia.
+Qed.
+
+Lemma find_by_type_value_fl c st cid pdu b n b' m : 23 <= n -> n <= 256 -> m <= len b' ->
+  handle_find_by_type_value c st cid pdu b n = Some (b', m) -> frame_list_ok (takeN m b') = true.
+Proof.
+  intros Hn Hn2 Hl. unfold handle_find_by_type_value. intros H. okb; try err_fl.
+  - match goal with X : check_size_and_handle_range _ _ _ _ _ _ = Some (Failed _) |- _ => apply check_range_failed_fl in X; [exact X|lia] end.
+  - match goal with X : services_by_group _ _ _ _ _ _ _ _ _ _ _ _ = Some (_, ?cur, _) |- _ =>
+      pose proof (services_by_group_inv _ _ _ _ _ _ _ _ _ _ _ _ _ _ _ X ltac:(lia)) as [I1 I2];
+      destruct (services_by_group_q _ _ _ _ _ _ _ _ _ _ _ _ _ _ _ X) as [q [Q1 Q2]] end.
+    destruct (Q2 eq_refl) as [Q|Q]; [discriminate Q|].
+    match goal with X : put _ 0 _ = Some _ |- _ => apply put_zero in X; rename X into Z end.
+    subst. replace (1 + 4 * q - 1) with (4 * q) in * by lia. rewrite (N.mod_small (4 * q) 256) in * by lia.
+    fl_fixed Z. replace (4 * q + 1 - 1) with (q * 4) by lia. apply whole_entries_mul; lia.
+Qed.
+
+(* ------------------------------------------------------------------ Read By Type *)
+Definition col_ok (k : collect) : Prop :=
+  if co_first k then co_cur k = 2
+  else exists q, 1 <= q /\ co_cur k = 2 + q * co_size k /\ 2 <= co_size k /\ co_size k <= 255.
+
+Lemma collect_attribute_ok c st cid k e index a st' k' :
+  collect_attribute c st cid k e index a = Some (st', k') -> col_ok k -> col_ok k'.
+Proof.
+  unfold collect_attribute. intros H Hk. brk; [|mon; exact Hk]. cbv zeta in H. mon.
+  destruct a0; mon; try exact Hk.
+  brk; [discriminate|]. match goal with X : (253 <? len ?d) = false |- _ => apply N.ltb_ge in X; rename X into Ld end.
+  mon. unfold col_ok in *. destruct (co_first k) eqn:Ef.
+  - (* the first entry fixes the size *)
+    rewrite (N.mod_small (len l + 2) 256) in H by lia.
+    rewrite N.eqb_refl in H. mon. cbn [co_first co_cur co_size].
+    exists 1. rewrite (N.mod_small (len l) 256) by lia. lia.
+  - destruct Hk as (q & Q1 & Q2 & Q3 & Q4). brk; mon; cbn [co_first co_cur co_size].
+    + match goal with X : (_ =? _) = true |- _ => apply N.eqb_eq in X; rename X into Es end.
+      exists (q + 1). rewrite (N.mod_small (len l) 256) by lia. nia.
+    + exists q. auto.
+Qed.
+
+Lemma all_attributes_ok c cid f e last eh : forall fuel st k index st' k',
+  all_attributes fuel c st cid f k e index last eh = Some (st', k') -> col_ok k -> col_ok k'.
+Proof.
+  induction fuel as [|fu IH]; intros st k index st' k' H Hk; cbn [all_attributes] in H; [mon; exact Hk|].
+  brk; [|mon; exact Hk]. mon. brk.
+  - mon. eapply IH; eauto. eapply collect_attribute_ok; eauto.
+  - eapply IH; eauto.
+Qed.
+
+Ltac fl_two Z0 Z1 :=
+  match goal with |- frame_list_ok (takeN ?m ?bb) = true =>
+    let t := fresh "t" in let E := fresh "E" in
+    destruct (takeN_two m bb ltac:(lia) ltac:(lia)) as [t E];
+    pose proof (len_takeN_le m bb ltac:(lia)) as L; rewrite E in L |- *; rewrite Z0, Z1 in L |- *; cbn [frame_list_ok]; rewrite L end.
+
+Lemma read_by_type_fl c st cid pdu b n st' b' m : 23 <= n -> n <= 257 -> m <= len b' ->
+  handle_read_by_type c st cid pdu b n = Some (st', (b', m)) -> frame_list_ok (takeN m b') = true.
+Proof.
+  intros Hn Hn2 Hl. unfold handle_read_by_type. intros H. okb; try err_fl.
+  - match goal with X : check_size_and_handle_range _ _ _ _ _ _ = Some (Failed _) |- _ => apply check_range_failed_fl in X; [exact X|lia] end.
+  - match goal with X : all_attributes _ _ _ _ _ _ _ _ _ _ = Some (_, ?k) |- _ => rename k into c1; rename X into Ea end.
+    pose proof (all_attributes_inv _ _ _ _ _ _ _ _ _ _ _ _ Ea) as [I1 I2]; [cbn [co_cur]; lia|cbn [co_cur]; lia|].
+    pose proof (all_attributes_ok _ _ _ _ _ _ _ _ _ _ _ _ Ea) as Ok. unfold col_ok at 1 in Ok. cbn [co_first co_cur] in Ok. specialize (Ok eq_refl).
+    match goal with X : negb (_ =? 2) = true |- _ => apply negb_true_iff, N.eqb_neq in X; rename X into Ne end.
+    unfold col_ok in Ok. destruct (co_first c1); [congruence|]. destruct Ok as (q & Q1 & Q2 & Q3 & Q4).
+    match goal with X : put _ 0 [9; _] = Some _ |- _ =>
+      pose proof (put_zero _ _ _ _ X) as Z0;
+      match type of X with put _ _ _ = Some ?bb => assert (Z1 : nth 1 bb 0 = co_size c1) by (unfold put in X; destruct (_ <=? _); [|discriminate X]; inversion X; reflexivity) end end.
+    rewrite (N.mod_small (co_cur c1 - 2) 256) in * by lia.
+    fl_two Z0 Z1. replace (2 <=? co_size c1) with true by (symmetry; apply N.leb_le; lia). cbn [andb].
+    replace (2 + (co_cur c1 - 2) - 2) with (q * co_size c1) by lia. apply whole_entries_mul; lia.
+Qed.
+
+(* ------------------------------------------------------------------ Find Information *)
+Lemma collect_tuples_q c : forall fuel start e only16 b out out_end b' out',
+  collect_handle_uuid_tuples fuel c start e only16 b out out_end = Some (b', out') -> 2 <= out ->
+  (exists q, out' = out + q * (if only16 then 4 else 18)) /\ nth 0 b' 0 = nth 0 b 0 /\ nth 1 b' 0 = nth 1 b 0.
+Proof.
+  induction fuel as [|f IH]; intros start e only16 b out out_end b' out' H Ho; cbn [collect_handle_uuid_tuples] in H.
+  - mon. split; [exists 0; lia|auto].
+  - cbv zeta in H. brk; [|mon; split; [exists 0; lia|auto]]. mon. brk.
+    + mon. apply IH in H; [|destruct only16; lia]. destruct H as ([q Q] & N0 & N1).
+      split; [exists (q + 1); lia|].
+      match goal with X : put b out _ = Some ?b1, Y : put ?b1 (out + 2) _ = Some _ |- _ =>
+        rewrite N0, N1, (put_nth_low _ _ _ _ 0%nat Y), (put_nth_low _ _ _ _ 1%nat Y), (put_nth_low _ _ _ _ 0%nat X), (put_nth_low _ _ _ _ 1%nat X) by lia end.
+      auto.
+    + apply IH in H; auto.
+Qed.
+
+Lemma find_information_fl c pdu b n b' m : 23 <= n -> m <= len b' ->
+  handle_find_information c pdu b n = Some (b', m) -> frame_list_ok (takeN m b') = true.
+Proof.
+  intros Hn Hl. unfold handle_find_information. intros H. okb; try err_fl.
+  - match goal with X : check_size_and_handle_range _ _ _ _ _ _ = Some (Failed _) |- _ => apply check_range_failed_fl in X; [exact X|lia] end.
+  - (* the first attribute always yields an entry *)
+    match goal with X : attribute_at c ?si = Some ?a0 |- _ => rename X into Ha; rename a0 into a; set (start := si) in * end.
+    assert (Hs : start < number_of_attributes c).
+    { destruct (N.lt_ge_cases start (number_of_attributes c)) as [L|L]; auto. rewrite (C2.attribute_at_beyond c start L) in Ha. discriminate. }
+    match goal with X : (_ <? handle_by_index c start) = false |- _ => apply N.ltb_ge in X; rename X into Hh end.
+    match goal with X : collect_handle_uuid_tuples _ _ _ _ _ _ _ _ = Some _ |- _ => rename X into Ec end.
+    cbn [collect_handle_uuid_tuples] in Ec. cbv zeta in Ec.
+    set (only16 := negb (attr_uuid a =? internal_128bit_uuid)) in *.
+    replace ((start <? number_of_attributes c) && (handle_by_index c start <=? n1)) with true in Ec
+      by (symmetry; apply andb_true_iff; split; [apply N.ltb_lt; exact Hs|apply N.leb_le; exact Hh]).
+    replace ((if only16 then 4 else 18) <=? n - 2) with true in Ec by (symmetry; apply N.leb_le; destruct only16; lia).
+    cbn [andb] in Ec. rewrite Ha in Ec. fold only16 in Ec. rewrite Bool.eqb_reflx in Ec. mon.
+    match goal with X : collect_handle_uuid_tuples _ _ _ _ _ _ _ _ = Some _ |- _ =>
+      apply collect_tuples_q in X; [destruct X as ([q Q] & N0 & N1)|destruct only16; lia] end.
+    rewrite (put_nth_low _ _ _ _ 0%nat E4), (put_nth_low _ _ _ _ 0%nat E0), (put_nth_low _ _ _ _ 0%nat E3), (put_zero _ _ _ _ E1) in N0 by lia.
+    rewrite (put_nth_low _ _ _ _ 1%nat E4), (put_nth_low _ _ _ _ 1%nat E0) in N1 by lia.
+    pose proof (put_at_one _ _ _ _ E3) as Z1.
+    rewrite Z1 in N1. subst.
+    fl_two N0 N1. destruct only16; cbn [N.eqb Pos.eqb andb orb].
+    + replace (2 + 4 + q * 4 - 2) with ((q + 1) * 4) by lia. rewrite whole_entries_mul by lia. reflexivity.
+    + replace (2 + 18 + q * 18 - 2) with ((q + 1) * 18) by lia. rewrite whole_entries_mul by lia. reflexivity.
+  - match goal with X : negb (1 =? n) = false |- _ => apply negb_false_iff, N.eqb_eq in X; lia end.
+Qed.
+
+(* ------------------------------------------------------------------ Read By Group Type *)
+Definition gsize (is128 : bool) : N := if is128 then 20 else 6.
+
+Definition pc_ok (k : pcollect) : Prop :=
+  if pc_first k then pc_out k = 2
+  else exists q, nth 1 (pc_buf k) 0 = gsize (pc_is128 k) /\ pc_out k = 2 + q * gsize (pc_is128 k).
+
+Lemma rpsr_q c s b out e index is128 b' out' :
+  uuid_ok (s_uuid s) = true -> 2 <= out ->
+  read_primary_service_response c s b out e index is128 = Some (b', out') ->
+  (out' = out \/ out' = out + gsize is128) /\ nth 1 b' 0 = nth 1 b 0.
+Proof.
+  intros Hu Ho. unfold read_primary_service_response. cbv zeta. intros H.
+  destruct (mem_read (uuid_bytes (s_uuid s)) 0 (e - (out + 4))) as [rc d] eqn:Em.
+  brk; [|mon; auto].
+  match goal with X : _ && _ = true |- _ => apply andb_true_iff in X; destruct X as [X1 X2]; apply Bool.eqb_prop in X1; apply N.leb_le in X2; rename X1 into Y1; rename X2 into Y2 end.
+  mon. split.
+  - right. unfold mem_read in Em. cbn [N.ltb N.compare] in Em.
+    replace (len (uuid_bytes (s_uuid s)) <? 0) with false in Em by (symmetry; apply N.ltb_ge; lia).
+    inversion Em. rewrite len_takeN, len_dropN. pose proof (C2.uuid_bytes_len _ Hu) as Lu.
+    unfold gsize in *. destruct (is_128bit (s_uuid s)); lia.
+  - match goal with X : put b out _ = Some ?b1, Y : put ?b1 (out + 4) _ = Some _ |- _ =>
+      rewrite (put_nth_low _ _ _ _ 1%nat Y), (put_nth_low _ _ _ _ 1%nat X) by lia end. reflexivity.
+Qed.
+
+Lemma collect_primary_services_ok c : forall ss k si eh e k',
+  forallb (fun s => uuid_ok (s_uuid s)) ss = true ->
+  collect_primary_services c ss k si eh e = Some k' -> pc_ok k -> pc_ok k'.
+Proof.
+  induction ss as [|s t IH]; intros k si eh e k' Hu H Hk; cbn [collect_primary_services] in H; [mon; exact Hk|].
+  cbn [forallb] in Hu. apply andb_true_iff in Hu. destruct Hu as [Hs Ht].
+  cbv zeta in H. brk; [|eapply IH; eauto].
+  assert (Ho : 2 <= pc_out k).
+  { unfold pc_ok in Hk. destruct (pc_first k); [lia|]. destruct Hk as (q & _ & Q). lia. }
+  mon. match goal with X : read_primary_service_response _ _ _ _ _ _ _ = Some _ |- _ => apply rpsr_q in X; auto; destruct X as [Q1 Q2] end.
+  eapply IH; eauto. unfold pc_ok in *. cbn [pc_first pc_buf pc_out pc_is128].
+  destruct (pc_first k) eqn:Ef.
+  - (* the first group fixes the entry size; output[ 1 ] is written *)
+    match goal with X : put (pc_buf k) 1 _ = Some _ |- _ => pose proof (put_at_one _ _ _ _ X) as Z1 end. fold (gsize (is_128bit (s_uuid s))) in Z1.
+    rewrite Q2, Z1. destruct Q1 as [->| ->]; [exists 0|exists 1]; split; auto; lia.
+  - destruct Hk as (q & N1 & Q). mon. rewrite Q2, N1. destruct Q1 as [->| ->]; [exists q|exists (q + 1)]; split; auto; lia.
+Qed.
+
+Lemma read_by_group_type_fl c pdu b n b' m : wf c -> 23 <= n -> m <= len b' ->
+  handle_read_by_group_type c pdu b n = Some (b', m) -> frame_list_ok (takeN m b') = true.
+Proof.
+  intros Hw Hn Hl. unfold handle_read_by_group_type. intros H.
+  assert (Hu : forallb (fun s => uuid_ok (s_uuid s)) (services c) = true).
+  { pose proof Hw as W. unfold wf, wf_b in W. repeat (apply andb_true_iff in W; destruct W as [W ?]).
+    apply forallb_forall. intros s Hs.
+    match goal with X : forallb (svc_static_ok c) (services c) = true |- _ => rewrite forallb_forall in X; specialize (X s Hs); rename X into Y end.
+    unfold svc_static_ok in Y. repeat (apply andb_true_iff in Y; destruct Y as [Y ?]). exact Y. }
+  okb; try err_fl.
+  - match goal with X : check_size_and_handle_range _ _ _ _ _ _ = Some (Failed _) |- _ => apply check_range_failed_fl in X; [exact X|lia] end.
+  - match goal with X : collect_primary_services _ _ _ _ _ _ = Some ?k |- _ => rename k into kk; rename X into Ec end.
+    pose proof (collect_primary_services_inv _ _ _ _ _ _ _ Ec) as (I1 & I2 & I3); [cbn [pc_out]; lia|cbn [pc_out]; lia|].
+    pose proof (collect_primary_services_ok _ _ _ _ _ _ _ Hu Ec) as Ok. unfold pc_ok at 1 in Ok. cbn [pc_first pc_out] in Ok. specialize (Ok eq_refl).
+    cbn [pc_buf] in I3. match goal with X : put b 0 [17] = Some _ |- _ => rewrite (put_zero _ _ _ _ X) in I3 end.
+    match goal with X : (pc_out kk =? 2) = false |- _ => apply N.eqb_neq in X; rename X into Ne end.
+    unfold pc_ok in Ok. destruct (pc_first kk); [congruence|]. destruct Ok as (q & N1 & Q).
+    fl_two I3 N1.
+    replace ((gsize (pc_is128 kk) =? 6) || (gsize (pc_is128 kk) =? 20)) with true by (unfold gsize; destruct (pc_is128 kk); reflexivity).
+    cbn [andb]. rewrite Q. replace (2 + q * gsize (pc_is128 kk) - 2) with (q * gsize (pc_is128 kk)) by lia.
+    apply whole_entries_mul; [|unfold gsize; destruct (pc_is128 kk); lia].
+    destruct (N.eq_dec q 0) as [->|]; [lia|lia].
+Qed.
+
+(* ------------------------------------------------------------------ l2cap_input *)
+Theorem att_input_frame_list c st cid pdu n st' rs k :
+  wf c -> get_conn st cid = Some k -> N.min n (negotiated_mtu c k) <= 256 ->
+  att_input c st cid pdu n = Some (st', rs) -> frame_list_ok rs = true.
+Proof.
+  intros Hw Hk Hs. unfold att_input. rewrite Hk. cbv zeta.
+  set (os := N.min n (negotiated_mtu c k)) in *.
+  destruct (len pdu =? 0); [discriminate|].
+  destruct (os <? default_att_mtu) eqn:Eo; [discriminate|]. apply N.ltb_ge in Eo. unfold default_att_mtu in Eo.
+  destruct (rd pdu 0) as [op|] eqn:Hop; [|discriminate].
+  set (b := repeat fill_byte (N.to_nat n)).
+  intros H.
+  match type of H with match ?x with _ => _ end = _ => destruct x as [[s1 [b1 m]]|] eqn:EH; [|discriminate H] end.
+  destruct (m <=? len b1) eqn:El; [|discriminate]. apply N.leb_le in El. mon.
+  destruct (op =? 1); [mon; reflexivity|].
+  destruct (op =? 2) eqn:E2; [eapply exchange_mtu_fl; eauto|].
+  destruct (op =? 4) eqn:E4; [mon; eapply find_information_fl; eauto|].
+  destruct (op =? 6) eqn:E6; [mon; eapply find_by_type_value_fl; eauto|].
+  destruct (op =? 8) eqn:E8; [eapply read_by_type_fl; eauto; lia|].
+  destruct (op =? 10) eqn:E10.
+  { apply N.eqb_eq in E10. subst op. eapply fl_good_plain; [eapply read_good; eauto|lia|auto]. }
+  destruct (op =? 12) eqn:E12.
+  { apply N.eqb_eq in E12. subst op. eapply fl_good_plain; [eapply read_blob_good; eauto|lia|auto]. }
+  destruct (op =? 16) eqn:E16; [mon; eapply read_by_group_type_fl; eauto|].
+  destruct (op =? 14) eqn:E14.
+  { apply N.eqb_eq in E14. subst op. eapply fl_good_plain; [eapply read_multiple_good; eauto|lia|auto]. }
+  destruct (op =? 18) eqn:E18; [eapply write_request_fl; eauto|].
+  destruct (op =? 82) eqn:E82; [unfold handle_write_command in EH; mon; reflexivity|].
+  destruct (op =? 22) eqn:E22; [eapply prepare_write_fl; eauto|].
+  destruct (op =? 24) eqn:E24; [eapply execute_write_fl; eauto|].
+  destruct (op =? 30) eqn:E30.
+  { unfold handle_confirmation in EH. okb; [err_fl|reflexivity]. }
+  mon. err_fl.
 Qed.
